@@ -17,3 +17,11 @@ def register(add):
                  E('bn_is_zero', 'a'), E('ep_is_infty', 'a'), E('bn_bits', 'a'), E('ep_curve_get_ord', 'a'), E('bn_mod_basic', 'a'), E('bn_abs', 'a'), E('bn_add', 'a')],
         note='group-level event monitor; callees abstract and trusted to be constant-time as units; pre: k != 0, p != infinity',
         bound_note='all bit lengths 1..1024 of the group order: the ladder loop is closed by a loop contract')
+    X = lambda f: '%s/%s_x' % (f, f)
+    add('bn_mxp_monty', ['C20'], 'bn_mxp_monty', sources=['src/bn/relic_bn_mxp.c', 'src/bn/relic_bn_mem.c'], headers=['ct_mxp.h', 'ct_mxp_state.h'],
+        conf='base', route='proof', loops=True, unwind=40, flags=['--object-bits', '10'], timeout=900,
+        decls='bn_st *c, *a, *b, *m;', call='bn_mxp_monty(c, a, b, m)',
+        replace=[X('dv_swap_sec'), X('bn_mul_comba'), X('bn_sqr_comba'), X('bn_mod_monty_comba'), X('bn_get_bit'), X('bn_cmp_dig'), X('bn_is_zero'), X('bn_sign'),
+                 X('bn_bits'), X('bn_mod_pre_monty'), X('bn_set_dig'), X('bn_mod_monty_conv'), X('bn_mod_monty_back'), X('bn_copy'), X('bn_grow')],
+        note='ring-level event monitor; callees abstract and trusted to be constant-time as units; pre: m != 1, b > 0',
+        bound_note='all exponent bit lengths 1..4096: the ladder loop is closed by a loop contract')
